@@ -68,6 +68,15 @@ let () =
       if String.length line > 0 && line.[0] <> '#' then begin
         let f = Array.of_list (String.split_on_char '|' line) in
         let rest i = Array.to_list (Array.sub f i (Array.length f - i)) in
+        if f.(0) = "G" then begin
+          (* whole walk: W;eip,esp,ebp;... *)
+          let funcs = if f.(4) = "-" then [] else
+            List.map (fun fu -> match String.split_on_char ' ' fu with
+              | [a; s; p] -> ((z_of_string a, z_of_string s), z_of_string p) | _ -> failwith "func") (String.split_on_char ';' f.(4)) in
+          let frames = run_walk7 (parse_regs f.(1)) (z_of_string f.(2)) (unhex f.(3)) funcs (List.map parse_rec (rest 5)) in
+          print_endline ("W;" ^ String.concat ";" (List.map (fun r ->
+            string_of_z (x_eip r) ^ "," ^ string_of_z (x_esp r) ^ "," ^ string_of_z (x_ebp r)) frames))
+        end else
         let o, o2, kind =
           if f.(0) = "A" then begin
             let recs = List.map parse_rec (rest 7) in
